@@ -117,18 +117,21 @@ func suitesFor(thorough bool) []*suite {
 		// the whole alphabet on a family of up to three live backoffers over the core kinds
 		return append(ss, family("family", 5, false))
 	}
+	f6 := family("family", 6, false)
+	f6.configs = [][2]int{{6, 1}, {150, 2}} // the other two (budget, weight) pairs are explored to depth 5 by family-ext
 	return append(ss,
-		family("family", 6, false),
+		f6,
 		// three more back-off calls (per-call maximum 0, a cut excluded sleep, an excluded sleep cut by cancellation)
 		family("family-ext", 5, true),
-		// deeper, over a reduced alphabet: one backoffer plus at most one fork of it at a time, four back-off
-		// calls, Reset, Fork, UpdateUsingForked (long accumulations, repeated fork/merge rounds, exhaustion of the medium budget)
-		&suite{name: "deep", depth: 7, maxLive: 2, maxCreated: 3, backoffs: []boTemplate{
+		// deeper, over a reduced alphabet: one backoffer plus at most one fork of it at a time, five back-off
+		// calls, Reset, Fork, UpdateUsingForked, cancellation (long accumulations, repeated fork/merge rounds, exhaustion of the medium budget)
+		&suite{name: "deep", depth: 8, maxLive: 2, maxCreated: 3, backoffs: []boTemplate{
 			{opBackoff, "regionMiss", -1, jitMin, intrNone},
 			{opBackoff, "tikvRPC", -1, jitMin, intrNone},
 			{opBackoff, "tikvRPC", -1, jitMax, intrNone},
 			{opBackoff, "tikvServerBusy", -1, jitMax, intrNone},
-		}, reset: true, fork: true, update: true})
+			{opLockFast, "txnLockFast", 8, jitMax, intrNone},
+		}, reset: true, fork: true, update: true, cancel: true})
 }
 
 // node is a state of the search: the shortest history reaching it.
@@ -509,14 +512,20 @@ func main() {
 	perSuite := map[string]any{}
 	for _, s := range ss {
 		before, tBefore := nStates, nTransitions.Load()
-		for _, b := range budgets {
-			for _, w := range weights {
-				bfs(s, b, w)
+		cfgs := s.configs
+		if cfgs == nil {
+			for _, b := range budgets {
+				for _, w := range weights {
+					cfgs = append(cfgs, [2]int{b, w})
+				}
 			}
+		}
+		for _, c := range cfgs {
+			bfs(s, c[0], c[1])
 		}
 		bounds["depth_"+s.name] = s.depth
 		perSuite[s.name] = map[string]any{"depth": s.depth, "states": nStates - before, "transitions": nTransitions.Load() - tBefore,
-			"alphabet_backoff_calls": len(s.backoffs), "max_live_backoffers": s.maxLive}
+			"alphabet_backoff_calls": len(s.backoffs), "max_live_backoffers": s.maxLive, "budget_weight_pairs": cfgs}
 	}
 	if stopProfile != nil {
 		stopProfile()
